@@ -1,13 +1,13 @@
 package main
 
 import (
-	"strings"
 	"bufio"
 	"bytes"
 	"encoding/json"
 	"flag"
 	"fmt"
 	"os"
+	"strings"
 
 	"verifharness/gen"
 	"verifharness/run"
